@@ -5,7 +5,11 @@ import (
 	"context"
 	"encoding/json"
 	"fmt"
+	"io"
+	"mime"
+	"mime/multipart"
 	"net/http/httptest"
+	"net/url"
 	"os"
 	"sort"
 	"strings"
@@ -93,6 +97,10 @@ func build(s *proj.Server, c Case) *executor.Executor {
 
 func buildHTTP(s *proj.Server, c Case) *handler.Server {
 	h := handler.New(s.ES)
+	// the streaming transports answer requests that ask for them and are registered before POST
+	h.AddTransport(transport.SSE{})
+	h.AddTransport(transport.MultipartMixed{})
+	h.AddTransport(transport.GET{})
 	h.AddTransport(transport.POST{})
 	switch c.Cache {
 	case "map":
@@ -113,7 +121,7 @@ func buildHTTP(s *proj.Server, c Case) *handler.Server {
 }
 
 // runHTTP sends one request as a POST body; members the request does not need are left out.
-func runHTTP(h *handler.Server, r Request) (evs []string, uevents []univ.Event, resp *graphql.Response, rejected bool) {
+func runHTTP(h *handler.Server, r Request, via string) (evs []string, uevents []univ.Event, resp *graphql.Response, rejected bool) {
 	l := &reqLog{}
 	e := univ.NewExec(plan.New(11))
 	ctx := withLog(univ.WithExec(context.Background(), e), l)
@@ -127,6 +135,23 @@ func runHTTP(h *handler.Server, r Request) (evs []string, uevents []univ.Event, 
 	b, _ := json.Marshal(body)
 	req := httptest.NewRequest("POST", "/graphql", bytes.NewReader(b)).WithContext(ctx)
 	req.Header.Set("Content-Type", "application/json")
+	switch via {
+	case "sse":
+		req.Header.Set("Accept", "text/event-stream")
+	case "mixed":
+		req.Header.Set("Accept", "multipart/mixed")
+	case "get":
+		q := url.Values{}
+		q.Set("query", r.Query)
+		if r.OpName != "" {
+			q.Set("operationName", r.OpName)
+		}
+		if len(r.Variables) > 0 {
+			vb, _ := json.Marshal(r.Variables)
+			q.Set("variables", string(vb))
+		}
+		req = httptest.NewRequest("GET", "/graphql?"+q.Encode(), nil).WithContext(ctx)
+	}
 	w := httptest.NewRecorder()
 	h.ServeHTTP(w, req)
 	resp = &graphql.Response{}
@@ -134,7 +159,26 @@ func runHTTP(h *handler.Server, r Request) (evs []string, uevents []univ.Event, 
 		Data   json.RawMessage `json:"data"`
 		Errors gqlerror.List   `json:"errors"`
 	}
-	_ = json.Unmarshal(w.Body.Bytes(), &env)
+	wire := w.Body.Bytes()
+	switch {
+	case strings.HasPrefix(w.Header().Get("Content-Type"), "text/event-stream"):
+		// the first next event
+		for _, ln := range strings.Split(string(wire), "\n") {
+			if strings.HasPrefix(ln, "data: ") {
+				wire = []byte(strings.TrimPrefix(ln, "data: "))
+				break
+			}
+		}
+	case strings.HasPrefix(w.Header().Get("Content-Type"), "multipart/mixed"):
+		// the first part
+		if _, params, err := mime.ParseMediaType(w.Header().Get("Content-Type")); err == nil {
+			mr := multipart.NewReader(bytes.NewReader(wire), params["boundary"])
+			if part, err := mr.NextPart(); err == nil {
+				wire, _ = io.ReadAll(part)
+			}
+		}
+	}
+	_ = json.Unmarshal(wire, &env)
 	resp.Data, resp.Errors = env.Data, env.Errors
 	if string(resp.Data) == "null" {
 		resp.Data = nil
@@ -143,7 +187,32 @@ func runHTTP(h *handler.Server, r Request) (evs []string, uevents []univ.Event, 
 	// error and is C09's business) and nothing executed
 	uevents = e.Events()
 	rejected = len(resp.Data) == 0 && len(resp.Errors) > 0 && len(uevents) == 0
-	return l.snapshot(), uevents, resp, rejected
+	evs = l.snapshot()
+	if streamingVia(via) {
+		// a streaming transport asks the response function once more to learn that the sequence has
+		// ended; the response interceptors see that call too. That trailing group (nothing but
+		// response hooks) is not part of the one response this request has.
+		first := -1
+		for i, ev := range evs {
+			if strings.HasPrefix(ev, "resp-enter ") {
+				if first < 0 {
+					first = i
+				} else if ev == evs[first] {
+					tailOnlyResp := true
+					for _, t := range evs[i:] {
+						if !strings.HasPrefix(t, "resp-") {
+							tailOnlyResp = false
+						}
+					}
+					if tailOnlyResp {
+						evs = evs[:i]
+					}
+					break
+				}
+			}
+		}
+	}
+	return evs, uevents, resp, rejected
 }
 
 // run executes one request and returns its log, the resolver/directive events and the response.
@@ -161,6 +230,8 @@ func runExecutor(s *proj.Server, ex *executor.Executor, r Request) (evs []string
 	resp = rh(ctx2)
 	return l.snapshot(), e.Events(), resp, false
 }
+
+func streamingVia(via string) bool { return via == "sse" || via == "mixed" }
 
 func hasHook(kind, hook string) bool {
 	for _, h := range hooks[kind] {
@@ -411,10 +482,10 @@ func check(c Case) *vfrun.Failure {
 	}
 	s := ss[0]
 	var run func(r Request) ([]string, []univ.Event, *graphql.Response, bool)
-	if c.Via == "post" {
+	if c.Via != "" {
 		h := buildHTTP(s, c)
-		run = func(r Request) ([]string, []univ.Event, *graphql.Response, bool) { return runHTTP(h, r) }
-		vfrun.Label("via-post-transport")
+		run = func(r Request) ([]string, []univ.Event, *graphql.Response, bool) { return runHTTP(h, r, c.Via) }
+		vfrun.Label("via-transport:" + c.Via)
 	} else {
 		ex := build(s, c)
 		run = func(r Request) ([]string, []univ.Event, *graphql.Response, bool) { return runExecutor(s, ex, r) }
@@ -568,7 +639,7 @@ func genCase(t *rapid.T, concurrent bool) Case {
 		c.Goroutines = rapid.IntRange(2, 8).Draw(t, "goroutines")
 	}
 	if rapid.IntRange(0, 2).Draw(t, "via") == 0 {
-		c.Via = "post"
+		c.Via = rapid.SampledFrom([]string{"post", "post", "sse", "mixed"}).Draw(t, "transport")
 	}
 	return c
 }
